@@ -20,7 +20,8 @@ def install(enable_logging=False):
   logging.disable(logging.NOTSET if enable_logging else logging.CRITICAL)
 
 
-def run_case(case, choose=None, aux=None, max_steps=60000, enable_logging=False, conf=None, prepare=None):
+def run_case(case, choose=None, aux=None, max_steps=60000, enable_logging=False, conf=None, prepare=None,
+             trace_lines=None):
   """Runs the case's test under a fresh scheduler.
 
   aux: list of (name, fn) — fn(env) runs in its own managed thread started just before execute();
@@ -72,7 +73,7 @@ def run_case(case, choose=None, aux=None, max_steps=60000, enable_logging=False,
       cfg.load(plug_teardown_timeout_s=0.05, _override=True)
     for k, v in (conf or {}).items():
       cfg.load(**{k: v, '_override': True})
-    box, s = sched.run(choose, body, max_steps=max_steps)
+    box, s = sched.run(choose, body, max_steps=max_steps, trace_lines=trace_lines)
   finally:
     cfg._loaded_values.clear()
     cfg._loaded_values.update(saved)
